@@ -351,3 +351,11 @@ B("C20-b05", "events list shared through a default", EVT, "    def __init__(self
 B("C20-b06", "decoder returns a cached instance", EVT, "        t = TemporalEventsData(format, start_time)\n        t.events = [Event._build(stream) for _ in range(nEvents)]\n\n        return t", "        t = TemporalEventsData(format, start_time)\n        t.events = [Event._build(stream) for _ in range(nEvents)]\n\n        return TemporalEventsData._last", expect="decoder-fresh")
 B("C20-b07", "platform map never created per instance", FPD, "        self._plat_map = []\n        self._platforms = []", "        self._platforms = []", expect="fresh-containers")
 P("C20-p01", "default None replaced by a fresh list", OPT, "self.channels = channels if channels is not None else []", "self.channels = list(channels) if channels is not None else []")
+
+# ------------------------------------------------------------------------------------------------ helper extraction
+P("C01-p06", "header fields written by an extracted helper method", EMG,
+  "        # nSignals\n        i32.bwrite(file, len(self._signals))\n\n        # frequency\n        i32.bwrite(file, self.frequency)\n", "        self._write_counts(file)\n",
+  EMG, "    def __getitem__(self, key) -> EMGTrack:", "    def _write_counts(self, file) -> None:\n        i32.bwrite(file, len(self._signals))\n        i32.bwrite(file, self.frequency)\n\n    def __getitem__(self, key) -> EMGTrack:")
+P("C06-p03", "header fields written by an extracted helper method", EMG,
+  "        # nSignals\n        i32.bwrite(file, len(self._signals))\n\n        # frequency\n        i32.bwrite(file, self.frequency)\n", "        self._write_counts(file)\n",
+  EMG, "    def __getitem__(self, key) -> EMGTrack:", "    def _write_counts(self, file) -> None:\n        i32.bwrite(file, len(self._signals))\n        i32.bwrite(file, self.frequency)\n\n    def __getitem__(self, key) -> EMGTrack:")
